@@ -74,6 +74,10 @@ def _isspace(s):
 
 UNUSUAL_TEXTS = [
     '', ' ', '\n', '\r', '\r\n', '\t', ' \n ', ';', ';;', ' ; ', ';\n;', "'", "''", "'''", '"', '""', '`', '``', '´',
+    # batch separator GO in every position relative to line starts and terminators
+    'go', 'GO', 'select 1\ngo\nselect 2', 'select 1 go select 2', 'use foo; go\nselect 1;', 'use foo; GO 2\nselect 1;',
+    'select 1;\n  go\nselect 2', 'select 1; -- c\ngo\nselect 2', 'select 1 go\n', 'go select 1', 'select 1; go; select 2',
+    'select 1 /* c */ go\nselect 2', 'select 1\r\nGO\r\nselect 2',
     '/*', '/**/', '/* ; ', '*/', '--', '-- ;', '--\n', '#', '# c', '# ', 'select 1; # ', 'select 1 # \t', 'select 1; -- ', 'x #\n', '(', ')', '((', '))', ')(', '(;', ';)', '[', ']', '[;]',
     '$$', '$$;', '$$ ; $$', '$a$ ; $a$', '$a$ ; $b$', '$', '$1', 'é', 'É;é', '業', '業者 ; 業', '\x00', '\x00;\x00',
     '\ud800', "'\ud800", '\x1f', '\x0c', '\xa0', 'select', 'select 1', 'select 1;', 'select 1; ', 'select 1;\n\n',
